@@ -179,8 +179,16 @@ def check(run, case, inputs, impl, mouts):
             continue
         tl = vs[-1][3]
         p = [(v[3] / tl if tl else Fraction(0)) * vs[-1][4] for v in vs]
+        # the implementation evaluates turnout_i / turnout_last * percent_last in binary64: where that is inexact, a percent that is
+        # exactly a whole number may come out a few ulp off, and the floor / searchsorted decision at that whole percent is a float
+        # rounding tie (DESIGN 3.1): such decisions are skipped and counted, like those within 1e-9 of a boundary
+        pf = [C.frac((float(v[3]) / float(tl) if tl else 0.0) * float(vs[-1][4])) for v in vs]
+
+        def tie(perc_):
+            return any(abs(x - perc_) < EPS and (x != perc_ or xf != x) for x, xf in zip(p, pf))
+
         pmax = max(p)
-        if 0 < abs(pmax - round(pmax)) < EPS:
+        if 0 < abs(pmax - round(pmax)) < EPS or (pmax == round(pmax) and max(pf) != pmax):
             run.boundary_skipped += 1
             continue
         want_rows = math.floor(pmax) + 1
@@ -199,7 +207,7 @@ def check(run, case, inputs, impl, mouts):
                 run.violation("imputed margin outside [-1, 1]", input=case, unit=uid, perc=perc, impl=est, predicate="est_bounded",
                               signature="C17:bounded")
                 break
-            if any(0 < abs(x - perc) < EPS for x in p):
+            if tie(perc):
                 continue
             if perc == 0:
                 want = Fraction(0)
@@ -236,7 +244,7 @@ def check(run, case, inputs, impl, mouts):
             run.diff("row count: model vs implementation", input=case, unit=uid, impl=len(got["rows"]), model=len(m["rows"]))
             continue
         for mr, gr in zip(m["rows"], got["rows"]):
-            if any(0 < abs(x - gr[0]) < EPS for x in p):
+            if tie(gr[0]):
                 run.boundary_skipped += 1
                 continue
             if not (C.close(gr[1], C.unrat(mr[1])) and C.close(gr[2], C.unrat(mr[2])) and C.close(gr[3], C.unrat(mr[3]))):
